@@ -22,7 +22,7 @@ Definition n_escapeJsString := Eval vm_compute in b "escapeJsString".
 Definition json_float (x : fl) : outcome bstr :=
   match x with
   | FNaN | FInf _ => Err e_json
-  | _ => match fl_to_string x with Some s => Ok s | None => OutOfModel end
+  | _ => match fl_to_string_dom x with Some s => Ok s | None => OutOfModel end
   end.
 
 Fixpoint json_items (rec : value -> outcome bstr) (l : list value) : outcome (list bstr) :=
